@@ -144,6 +144,12 @@ pub fn request_bytes(spec: &str) -> (Vec<u8>, String, Beh) {
     let mut out = Vec::new();
     match framing {
         "x" => out.extend_from_slice(format!("{method} {path}\r\n\r\n").as_bytes()),
+        // requests that the server answers with an error response of its own: h HTTP/1.0 (505), l head too long (431),
+        // q cookie without '=' (400), z non-numeric length (400)
+        "h" => out.extend_from_slice(format!("{method} {path} HTTP/1.0\r\n\r\n").as_bytes()),
+        "l" => out.extend_from_slice(format!("{method} {path} HTTP/1.1\r\nx-pad: {}\r\n\r\n", "x".repeat(9000)).as_bytes()),
+        "q" => out.extend_from_slice(format!("{method} {path} HTTP/1.1\r\ncookie: novalue\r\n\r\n").as_bytes()),
+        "z" => out.extend_from_slice(format!("{method} {path} HTTP/1.1\r\ncontent-length: abc\r\n\r\n").as_bytes()),
         _ => {
             out.extend_from_slice(format!("{method} {path} HTTP/1.1\r\n").as_bytes());
             match framing {
@@ -446,7 +452,7 @@ pub fn run(ctx: &mut Ctx) {
                 5 | 6 => format!("PUT:/r{j}:k:{}:{beh}", body(&mut rng, *rng_pick(&[101usize, 150, 3000]))),
                 7 => format!("POST:/r{j}:e:{}:{beh}", body(&mut rng, *rng_pick(&[5usize, 120]))),
                 8 if last => format!("POST:/r{j}:u:{}:{beh}", body(&mut rng, *rng_pick(&[0usize, 7, 200, 6000]))),
-                9 => format!("GET:/r{j}:x::{beh}"),
+                9 => format!("GET:/r{j}:{}::{beh}", *rng_pick(&["x", "x", "h", "l", "q", "z"])),
                 10 => format!("POST:/r{j}:c:{}:{beh}", enc(b"5\r\nhello\r\n0\r\n\r\n")),
                 _ => format!("DELETE:/r{j}:n::{beh}"),
             };
@@ -496,6 +502,32 @@ pub fn run(ctx: &mut Ctx) {
         let split = rng.range(7000, 8191.min(wire_len as u64 - 1));
         if ctx.mine(n + i) {
             case(ctx, "c04", "100", "1", &format!("split{split}"), &reqs.join(";"));
+        }
+    }
+}
+
+/// C20 on the wire: every request class the server answers with an error response of its own, and handler answers of
+/// every 5xx / 4xx kind, alone and after an ordinary request; the bytes the client receives are compared with the model
+/// (status, `connection: close` on every 5xx, body that names only the error kind) and nothing may follow.
+pub fn run_c20w(ctx: &mut Ctx) {
+    let mut idx = 0u64;
+    for framing in ["x", "h", "l", "q", "z", "c"] {
+        for prefix in ["", "GET:/ok:n::n200;"] {
+            for sched in ["single", "frag"] {
+                idx += 1;
+                if ctx.mine(idx) && !(framing == "l" && sched == "frag") {
+                    case(ctx, "c04", "100", "1", sched, &format!("{prefix}GET:/e{idx}:{framing}::n200;GET:/after:n::n200"));
+                }
+            }
+        }
+    }
+    for beh in ["n500", "n503", "n599", "n404", "p", "g5", "a9"] {
+        for (framing, body) in [("n", String::new()), ("k", enc(b"0123456789")), ("u", enc(b"0123456789"))] {
+            idx += 1;
+            if ctx.mine(idx) {
+                let cache = if idx % 4 == 0 { "0" } else { "1" };
+                case(ctx, "c04", "5", cache, "single", &format!("POST:/h{idx}:{framing}:{body}:{beh};GET:/after:n::n200"));
+            }
         }
     }
 }
